@@ -766,3 +766,134 @@ func c09r7(c *Ctx, r *Report) {
 	}
 	r.floor("cursor updates computed from len(t.input)", n, 3)
 }
+
+// c20r11: the goroutine that kills the preview command listens for kill requests whenever it waits.
+func c20r11(c *Ctx, r *Report) {
+	l := c.L
+	r.rule("C20-R11", "B (select census in the watcher goroutine)", "P1",
+		"in the goroutine that owns util.KillCommand for the running preview command, every blocking select — also the one that grants a cancelled command its grace period — has a receive on Terminal.killChan: a kill request posted at session end (killPreview) is taken at once and not after the grace period",
+		"the session ends while the watcher sits in its grace period: killPreview's bounded wait expires together with it and fzf exits before the command was killed — the preview child survives")
+	fKill := l.Field("fzf", "Terminal", "killChan")
+	loop := l.Fn("fzf", "(*Terminal).Loop")
+	if fKill == nil || loop == nil {
+		r.unest("anchors", token.NoPos, nil, "anchors Terminal.killChan / Terminal.Loop", "cannot resolve")
+		return
+	}
+	kc := modPath + "/src/util.KillCommand"
+	n := 0
+	for _, fn := range withClosures(loop) {
+		kills := false
+		eachInstr(fn, func(in ssa.Instruction) {
+			if _, ok := isCall(in, kc); ok {
+				kills = true
+			}
+		})
+		if !kills {
+			continue
+		}
+		eachInstr(fn, func(in ssa.Instruction) {
+			sel, ok := in.(*ssa.Select)
+			if !ok || !sel.Blocking {
+				return
+			}
+			n++
+			listens := false
+			for _, st := range sel.States {
+				if st.Dir != types.RecvOnly {
+					continue
+				}
+				if f, _ := loadedField(st.Chan); f == fKill {
+					listens = true
+				}
+			}
+			r.check(listens, fmt.Sprintf("%s:select #%d listens on killChan", relName(fn), n), sel.Pos(), fn, "the waiting watcher can be told to kill immediately", "while this select waits, a send on killChan blocks: a kill at session end is not delivered in time")
+		})
+	}
+	r.floor("blocking selects in the watcher goroutine", n, 2)
+}
+
+// c08r12: the matcher itself empties the chunk cache when it adopts a new revision.
+func c08r12(c *Ctx, r *Report) {
+	l := c.L
+	r.rule("C08-R12", "P (must-pass-through in the goroutine that serialises the scans)", "P1",
+		"in Matcher.Loop — the only goroutine that starts scans, one after the other, each joined before the next request is looked at — every assignment of Matcher.revision is followed on every path to the next scan by ChunkCache.Clear(): entries that workers of a superseded scan added for the previous revision (after the coordinator's own, concurrent, Clear) cannot be served to the new one",
+		"change-nth / exclude / reload issued while a scan is running: the old workers repopulate the chunk cache after the coordinator emptied it and the new search is answered from those entries — a wrong result that stays")
+	loop := l.Fn("fzf", "(*Matcher).Loop")
+	scan := l.Fn("fzf", "(*Matcher).scan")
+	clear := l.Fn("fzf", "(*ChunkCache).Clear")
+	fRev := l.Field("fzf", "Matcher", "revision")
+	if loop == nil || scan == nil || clear == nil || fRev == nil {
+		r.unest("anchors", token.NoPos, nil, "anchors Matcher.Loop / scan / ChunkCache.Clear / Matcher.revision", "cannot resolve")
+		return
+	}
+	n := 0
+	for _, fn := range withClosures(loop) {
+		eachInstr(fn, func(in ssa.Instruction) {
+			st, ok := in.(*ssa.Store)
+			if !ok {
+				return
+			}
+			if f, _ := fieldOf(st.Addr); f != fRev {
+				return
+			}
+			n++
+			isClear := func(i2 ssa.Instruction) bool {
+				call, ok := i2.(*ssa.Call)
+				return ok && callIs(call.Common(), clear)
+			}
+			before := false
+			for _, i2 := range in.Block().Instrs {
+				if i2 == in {
+					break
+				}
+				if isClear(i2) {
+					before = true
+				}
+			}
+			var bad ssa.Instruction
+			if !before {
+				bad = feasiblePathAvoiding(in, func(i2 ssa.Instruction) bool {
+					call, ok := i2.(*ssa.Call)
+					return ok && callIs(call.Common(), scan)
+				}, isClear, nil)
+			}
+			if bad != nil {
+				// or: the Clear comes first, and the only ways around it are edges on which the
+				// revision is known to be unchanged (`request.revision != m.revision` false)
+				isRevCmp := func(v ssa.Value) (neq bool, ok bool) {
+					b, ok2 := v.(*ssa.BinOp)
+					if !ok2 || (b.Op != token.NEQ && b.Op != token.EQL) {
+						return false, false
+					}
+					f1, _ := loadedField(b.X)
+					f2, _ := loadedField(b.Y)
+					if (f1 == fRev) != (f2 == fRev) || f1 == f2 {
+						// exactly one side is m.revision (the other is the request's)
+						if f1 != fRev && f2 != fRev {
+							return false, false
+						}
+					}
+					return b.Op == token.NEQ, true
+				}
+				back := pathAvoiding(fn.Blocks[0].Instrs[0], func(i2 ssa.Instruction) bool { return i2 == in }, isClear, func(from, to *ssa.BasicBlock) bool {
+					iff, ok := from.Instrs[len(from.Instrs)-1].(*ssa.If)
+					if !ok {
+						return true
+					}
+					neq, ok := isRevCmp(iff.Cond)
+					if !ok {
+						return true
+					}
+					// Succs[0] is the true edge
+					unchangedEdge := (neq && to == from.Succs[1]) || (!neq && to == from.Succs[0])
+					return !unchangedEdge
+				})
+				if back == nil {
+					bad = nil
+				}
+			}
+			r.check(bad == nil, relName(fn)+":new revision => chunk cache cleared here", st.Pos(), fn, "ChunkCache.Clear() accompanies the new revision inside Matcher.Loop", "a path reaches the next scan with the chunk cache of the previous revision (the Clear is missing or sits under a condition that cannot hold)")
+		})
+	}
+	r.floor("assignments of Matcher.revision in Loop", n, 1)
+}
